@@ -6,16 +6,19 @@ import (
 	"os"
 	"sort"
 	"strings"
+	"sync/atomic"
 	"time"
 
 	"github.com/samber/lo"
 	corev1 "k8s.io/api/core/v1"
+	apierrors "k8s.io/apimachinery/pkg/api/errors"
 	"k8s.io/apimachinery/pkg/api/resource"
 	metav1 "k8s.io/apimachinery/pkg/apis/meta/v1"
 	"k8s.io/apimachinery/pkg/types"
 	"k8s.io/apimachinery/pkg/util/sets"
 	"k8s.io/client-go/tools/record"
 	clock "k8s.io/utils/clock/testing"
+	"sigs.k8s.io/controller-runtime/pkg/client"
 	"sigs.k8s.io/controller-runtime/pkg/client/interceptor"
 
 	v1 "sigs.k8s.io/karpenter/pkg/apis/v1"
@@ -44,6 +47,7 @@ const (
 
 	kfAffinityTwoDomains = "self-affinity-bootstrap-leaves-node-undetermined"
 	kfNilSelector        = "required-affinity-with-nil-selector-follows-any-pod"
+	kfUpdateError        = "update-error-during-relaxation-drops-topology-ownership"
 	kfDupValues          = "selector-duplicate-values-hash-collision"
 	kfFilterHash         = "spread-group-hash-ignores-node-filter-values"
 	kfUnlabelledNode     = "pod-counted-in-domain-of-unlabelled-node"
@@ -92,11 +96,20 @@ type sPod struct {
 	Aff       []sTerm           `json:"affinity,omitempty"`
 	Spread    []sSpread         `json:"spread,omitempty"`
 	Node      string            `json:"node,omitempty"` // bound pods
+	// further input dimensions (coverage audit)
+	ZoneTerms   [][]string `json:"zoneOrTerms,omitempty"`   // required node affinity with several OR-ed terms (zone In ..)
+	PrefZone    []string   `json:"preferredZone,omitempty"` // preferred node affinity
+	Phase       string     `json:"phase,omitempty"`         // bound pods: "Succeeded"
+	Terminating bool       `json:"terminating,omitempty"`   // bound pods with a deletion timestamp
+	Resched     bool       `json:"rescheduled,omitempty"`   // bound pod of a candidate node that is part of the batch
 }
 type sNode struct {
 	Name    string            `json:"name"`
 	Labels  map[string]string `json:"labels"`
 	Tainted bool              `json:"tainted,omitempty"`
+	NoHost    bool `json:"noHostnameLabel,omitempty"`
+	Candidate bool `json:"candidate,omitempty"` // being removed: excluded from the scheduler's nodes, its pods are rescheduled
+	InFlight  bool `json:"inFlightNodeClaim,omitempty"`
 }
 type sPool struct {
 	Name    string   `json:"name"`
@@ -104,6 +117,8 @@ type sPool struct {
 	Team    string   `json:"team,omitempty"` // "", "in", "label"
 	Tainted bool     `json:"tainted,omitempty"`
 	Weight  int32    `json:"weight,omitempty"`
+	ZoneNotIn        []string `json:"zoneNotIn,omitempty"`
+	PreferNoSchedule bool     `json:"preferNoSchedule,omitempty"` // the taint's effect
 }
 type sCase struct {
 	Kind      string                         `json:"kind"`
@@ -113,6 +128,10 @@ type sCase struct {
 	Bound     []sPod                         `json:"bound_pods"`
 	Batch     []sPod                         `json:"batch"`
 	Workers   int                            `json:"workers"`
+	IgnorePrefs  bool     `json:"ignorePreferences,omitempty"`
+	Fault        string   `json:"fault,omitempty"`
+	CatalogZones []string `json:"catalogZones,omitempty"`
+	SchedulerErr string   `json:"scheduler_error,omitempty"`
 	Placement map[string]string              `json:"placement"`
 	NewNodes  map[string]map[string][]string `json:"new_nodes"`
 	Failed    []string                       `json:"unschedulable,omitempty"`
@@ -175,10 +194,25 @@ func (sp sPod) k8s() *corev1.Pod {
 	if len(sp.ZoneNotIn) > 0 {
 		exprs = append(exprs, corev1.NodeSelectorRequirement{Key: zoneKey, Operator: corev1.NodeSelectorOpNotIn, Values: sp.ZoneNotIn})
 	}
-	if len(exprs) > 0 {
+	if len(sp.ZoneTerms) > 0 {
+		used = true
+		var terms []corev1.NodeSelectorTerm
+		for _, zs := range sp.ZoneTerms {
+			terms = append(terms, corev1.NodeSelectorTerm{MatchExpressions: []corev1.NodeSelectorRequirement{{Key: zoneKey, Operator: corev1.NodeSelectorOpIn, Values: zs}}})
+		}
+		aff.NodeAffinity = &corev1.NodeAffinity{RequiredDuringSchedulingIgnoredDuringExecution: &corev1.NodeSelector{NodeSelectorTerms: terms}}
+	} else if len(exprs) > 0 {
 		used = true
 		aff.NodeAffinity = &corev1.NodeAffinity{RequiredDuringSchedulingIgnoredDuringExecution: &corev1.NodeSelector{
 			NodeSelectorTerms: []corev1.NodeSelectorTerm{{MatchExpressions: exprs}}}}
+	}
+	if len(sp.PrefZone) > 0 {
+		used = true
+		if aff.NodeAffinity == nil {
+			aff.NodeAffinity = &corev1.NodeAffinity{}
+		}
+		aff.NodeAffinity.PreferredDuringSchedulingIgnoredDuringExecution = []corev1.PreferredSchedulingTerm{{Weight: 10,
+			Preference: corev1.NodeSelectorTerm{MatchExpressions: []corev1.NodeSelectorRequirement{{Key: zoneKey, Operator: corev1.NodeSelectorOpIn, Values: sp.PrefZone}}}}}
 	}
 	for _, t := range sp.Anti {
 		used = true
@@ -219,6 +253,9 @@ func (sp sPod) k8s() *corev1.Pod {
 	if sp.Node != "" {
 		p.Spec.NodeName = sp.Node
 		p.Status.Phase = corev1.PodRunning
+		if sp.Phase != "" {
+			p.Status.Phase = corev1.PodPhase(sp.Phase)
+		}
 		p.Status.Conditions = []corev1.PodCondition{{Type: corev1.PodScheduled, Status: corev1.ConditionTrue}}
 	} else {
 		p.Status.Phase = corev1.PodPending
@@ -271,8 +308,10 @@ func gSpread(s sSpread) string {
 	return fmt.Sprintf("(mkSpread %s %s %s %s %s %s %s)", kit.GStr(s.Key), kit.GZ(int64(s.MaxSkew)), mind, gSel(s.Sel), kit.GStrs(s.MLK), kit.GBool(th), kit.GBool(ah))
 }
 
-func gPod(sp sPod, node string, isNew bool) string {
-	reqs := scheduling.NewStrictPodRequirements(sp.k8s())
+func gPod(sp sPod, node string, isNew bool, reqs scheduling.Requirements) string {
+	if reqs == nil {
+		reqs = scheduling.NewStrictPodRequirements(sp.k8s())
+	}
 	var rs []string
 	for _, k := range sorted(reqs.Keys().UnsortedList()) {
 		rs = append(rs, kit.GPair(kit.GStr(k), gReq(reqs.Get(k))))
@@ -313,6 +352,9 @@ func pickSel(r *kit.Rand, target string) sSel {
 	case k < 17:
 		return sSel{Exprs: []sExpr{{Key: "app", Op: "Exists"}}}
 	case k < 18:
+		if r.Bool() {
+			return sSel{ML: map[string]string{"app": target}, Exprs: []sExpr{{Key: "tier", Op: "DoesNotExist"}}}
+		}
 		return sSel{} // empty selector: every pod
 	case k < 19:
 		return sSel{Nil: true}
@@ -344,13 +386,28 @@ func genScenario(r *kit.Rand) sCase {
 	if r.Chance(1, 3) {
 		p1.Zones = subset(r, allZones, 1, 3)
 	}
+	if len(p1.Zones) == 0 && r.Chance(1, 8) {
+		p1.ZoneNotIn = subset(r, allZones, 1, 1)
+	}
 	p1.Team = kit.Pick(r, []string{"", "", "in", "label"})
 	sc.Pools = []sPool{p1}
+	if r.Chance(1, 6) {
+		sc.CatalogZones = []string{"z1", "z2"} // z3 is then only known through existing nodes
+	}
+	sc.IgnorePrefs = r.Chance(1, 6)
+	if r.Chance(1, 10) {
+		faults := []string{"new:list-pods", "new:list-namespaces", "new:get-node"}
+		if solveFaults {
+			faults = append(faults, "solve:list-namespaces", "solve:list-pods")
+		}
+		sc.Fault = kit.Pick(r, faults)
+	}
 	if r.Chance(1, 3) {
 		p2 := sPool{Name: "pool-b", Weight: 1, Tainted: r.Chance(1, 2), Team: kit.Pick(r, []string{"", "label"})}
 		if r.Chance(1, 2) {
 			p2.Zones = subset(r, allZones, 1, 2)
 		}
+		p2.PreferNoSchedule = p2.Tainted && r.Chance(1, 2)
 		sc.Pools = append(sc.Pools, p2)
 	}
 	// existing nodes
@@ -364,7 +421,27 @@ func genScenario(r *kit.Rand) sCase {
 		if r.Chance(1, 3) {
 			lab[teamKey] = kit.Pick(r, []string{"x", "y"})
 		}
-		sc.Nodes = append(sc.Nodes, sNode{Name: name, Labels: lab, Tainted: r.Chance(1, 8)})
+		n := sNode{Name: name, Labels: lab, Tainted: r.Chance(1, 8)}
+		if r.Chance(1, 8) {
+			n.NoHost = true
+			delete(lab, hostKey)
+		}
+		sc.Nodes = append(sc.Nodes, n)
+	}
+	if r.Chance(1, 5) {
+		lab := map[string]string{ctKey: "on-demand", zoneKey: kit.Pick(r, allZones), v1.NodePoolLabelKey: "pool-a", corev1.LabelInstanceTypeStable: "large"}
+		if p1.Team == "label" {
+			lab[teamKey] = "x"
+		}
+		sc.Nodes = append(sc.Nodes, sNode{Name: "claim-0", Labels: lab, InFlight: true})
+	}
+	real := lo.Filter(sc.Nodes, func(n sNode, _ int) bool { return !n.InFlight })
+	candidate := ""
+	if len(real) > 0 && r.Chance(1, 5) {
+		candidate = kit.Pick(r, real).Name
+		for i := range sc.Nodes {
+			sc.Nodes[i].Candidate = sc.Nodes[i].Name == candidate
+		}
 	}
 	apps := []string{"a", "b", "c"}
 	// bound pods
@@ -373,7 +450,17 @@ func genScenario(r *kit.Rand) sCase {
 		for i := 0; i < nb; i++ {
 			app := kit.Pick(r, apps)
 			bp := sPod{Name: fmt.Sprintf("bound-%d", i), NS: kit.Pick(r, []string{"ns1", "ns1", "ns1", "ns2"}), Labels: map[string]string{"app": app}, CPU: "100m",
-				Node: kit.Pick(r, sc.Nodes).Name, Tolerates: true}
+				Node: kit.Pick(r, real).Name, Tolerates: true}
+			switch k := r.Intn(30); {
+			case k < 2:
+				bp.Phase = "Succeeded"
+			case k < 4:
+				bp.Terminating = true
+			case k < 6:
+				bp.Node = "gone-node" // leaked: its node no longer exists
+			default:
+				bp.Resched = bp.Node == candidate
+			}
 			if r.Chance(1, 3) {
 				bp.Labels["rev"] = kit.Pick(r, []string{"1", "2"})
 			}
@@ -446,7 +533,15 @@ func genScenario(r *kit.Rand) sCase {
 					}
 				}
 				if r.Chance(1, 3) {
-					s.TaintHonor = ptr(r.Bool())
+					// Karpenter treats PreferNoSchedule taints as intolerable, Kubernetes' nodeTaintsPolicy ignores them: keep the
+					// two apart by not honouring taints when such a pool exists
+					s.TaintHonor = ptr(r.Bool() && !lo.SomeBy(sc.Pools, func(p sPool) bool { return p.PreferNoSchedule }))
+				}
+				switch k := r.Intn(16); {
+				case k < 2:
+					s.Sel = sSel{Exprs: []sExpr{{Key: "app", Op: "In", Vals: []string{app}}}}
+				case k < 3 && len(s.MLK) == 0:
+					s.Sel = sSel{Nil: true}
 				}
 				if r.Chance(1, 3) {
 					s.AffHonor = ptr(r.Bool())
@@ -457,7 +552,15 @@ func genScenario(r *kit.Rand) sCase {
 				}
 			}
 		}
-		switch r.Intn(10) {
+		switch r.Intn(12) {
+		case 4:
+			first := subset(r, allZones, 1, 1)
+			if r.Bool() {
+				first = []string{"z9"} // cannot be satisfied: the term is relaxed away
+			}
+			tmpl.ZoneTerms = [][]string{first, subset(r, allZones, 1, 2)}
+		case 5:
+			tmpl.PrefZone = []string{kit.Pick(r, []string{"z1", "z2", "z3", "z9"})}
 		case 0:
 			tmpl.NodeSel = map[string]string{zoneKey: kit.Pick(r, allZones)}
 		case 1:
@@ -478,7 +581,7 @@ func genScenario(r *kit.Rand) sCase {
 			// with a spread constraint only when the template also carries a DoNotSchedule zone spread: then every counted
 			// pod's node has a collapsed zone when it is committed, so eligibility w.r.t. a zone restriction never changes later
 			zoneDNS := lo.SomeBy(tmpl.Spread, func(s sSpread) bool { return s.Key == zoneKey && !s.Anyway })
-			if i >= 2 && r.Chance(1, 4) && tmpl.NodeSel == nil && len(tmpl.ZoneIn) == 0 && (len(tmpl.Spread) == 0 || (extraShapes && zoneDNS)) {
+			if i >= 2 && r.Chance(1, 4) && tmpl.NodeSel == nil && len(tmpl.ZoneIn) == 0 && len(tmpl.ZoneTerms) == 0 && (len(tmpl.Spread) == 0 || (extraShapes && zoneDNS)) {
 				p.ZoneIn = subset(r, allZones, 1, 2)
 			}
 			sc.Batch = append(sc.Batch, p)
@@ -490,10 +593,13 @@ func genScenario(r *kit.Rand) sCase {
 
 // ------------------------------------------------------------------ run one scenario on the real scheduler
 
-func buildCatalog() []*cloudprovider.InstanceType {
+func buildCatalog(zones []string) []*cloudprovider.InstanceType {
+	if len(zones) == 0 {
+		zones = allZones
+	}
 	mk := func(name string, cpu, mem string, pods string) *cloudprovider.InstanceType {
 		var ofs []cloudprovider.Offering
-		for _, z := range allZones {
+		for _, z := range zones {
 			for _, ct := range []string{"on-demand", "spot"} {
 				ofs = append(ofs, cloudprovider.Offering{Available: true, Price: fake.PriceFromResources(corev1.ResourceList{corev1.ResourceCPU: resource.MustParse(cpu)}),
 					Requirements: scheduling.NewLabelRequirements(map[string]string{ctKey: ct, zoneKey: z})})
@@ -509,6 +615,9 @@ func poolReqs(p sPool) (reqs []v1.NodeSelectorRequirementWithMinValues, labels m
 	labels = map[string]string{}
 	if len(p.Zones) > 0 {
 		reqs = append(reqs, v1.NodeSelectorRequirementWithMinValues{Key: zoneKey, Operator: corev1.NodeSelectorOpIn, Values: p.Zones})
+	}
+	if len(p.ZoneNotIn) > 0 {
+		reqs = append(reqs, v1.NodeSelectorRequirementWithMinValues{Key: zoneKey, Operator: corev1.NodeSelectorOpNotIn, Values: p.ZoneNotIn})
 	}
 	switch p.Team {
 	case "in":
@@ -532,23 +641,28 @@ func universe(sc sCase) map[string]map[string][][]string {
 		}
 		u[k][d] = append(u[k][d], ts)
 	}
+	catalog := sc.CatalogZones
+	if len(catalog) == 0 {
+		catalog = allZones
+	}
 	for _, p := range sc.Pools {
-		zs := p.Zones
+		tainted := p.Tainted && !p.PreferNoSchedule // nodeTaintsPolicy only looks at NoSchedule / NoExecute taints
+		zs := p.Zones                                // an In requirement of the pool registers all its values
 		if len(zs) == 0 {
-			zs = allZones
+			zs = lo.Without(catalog, p.ZoneNotIn...)
 		}
 		for _, z := range zs {
-			add(zoneKey, z, p.Tainted)
+			add(zoneKey, z, tainted)
 		}
 		for _, ct := range []string{"on-demand", "spot"} {
-			add(ctKey, ct, p.Tainted)
+			add(ctKey, ct, tainted)
 		}
 		switch p.Team {
 		case "in":
-			add(teamKey, "x", p.Tainted)
-			add(teamKey, "y", p.Tainted)
+			add(teamKey, "x", tainted)
+			add(teamKey, "y", tainted)
 		case "label":
-			add(teamKey, "x", p.Tainted)
+			add(teamKey, "x", tainted)
 		}
 	}
 	return u
@@ -561,6 +675,11 @@ var debugDump bool
 // zone label). They are generated by default and tagged with their kf_key; C02_EXTRA=0 switches them off.
 var extraShapes = os.Getenv("C02_EXTRA") != "0"
 
+// solveFaults (env C02_SOLVE_FAULTS=1): API faults that start only after the scheduler was built, i.e. they hit
+// Topology.Update during relaxation. They expose a reported defect (key kfUpdateError) that is not yet listed as a
+// known finding, so they are off by default.
+var solveFaults = os.Getenv("C02_SOLVE_FAULTS") == "1"
+
 func runSolve(c *kit.Ctx, r *kit.Rand, idx int) {
 	sc := genScenario(r)
 	runScenario(c, sc)
@@ -569,9 +688,34 @@ func runSolve(c *kit.Ctx, r *kit.Rand, idx int) {
 func runScenario(c *kit.Ctx, sc sCase) {
 	ctx := kit.Context()
 	clk := clock.NewFakeClock(time.Unix(1_700_000_100, 0))
-	cl := kit.NewClient(interceptor.Funcs{})
+	var faultOn atomic.Bool
+	fault := sc.Fault
+	if i := strings.Index(fault, ":"); i >= 0 {
+		fault = fault[i+1:]
+	}
+	cl := kit.NewClient(interceptor.Funcs{
+		List: func(ctx context.Context, c client.WithWatch, list client.ObjectList, opts ...client.ListOption) error {
+			if faultOn.Load() {
+				lo := &client.ListOptions{}
+				lo.ApplyOptions(opts)
+				if _, ok := list.(*corev1.PodList); ok && fault == "list-pods" && lo.Namespace != "" && lo.LabelSelector != nil {
+					return apierrors.NewInternalError(fmt.Errorf("injected"))
+				}
+				if _, ok := list.(*corev1.NamespaceList); ok && fault == "list-namespaces" {
+					return apierrors.NewInternalError(fmt.Errorf("injected"))
+				}
+			}
+			return c.List(ctx, list, opts...)
+		},
+		Get: func(ctx context.Context, c client.WithWatch, key client.ObjectKey, obj client.Object, opts ...client.GetOption) error {
+			if _, ok := obj.(*corev1.Node); ok && faultOn.Load() && fault == "get-node" {
+				return apierrors.NewInternalError(fmt.Errorf("injected"))
+			}
+			return c.Get(ctx, key, obj, opts...)
+		},
+	})
 	cp := fake.NewCloudProvider()
-	cp.InstanceTypes = buildCatalog()
+	cp.InstanceTypes = buildCatalog(sc.CatalogZones)
 	for _, ns := range []struct{ n, team string }{{"ns1", "a"}, {"ns2", "b"}} {
 		kit.Apply(ctx, cl, &corev1.Namespace{ObjectMeta: metav1.ObjectMeta{Name: ns.n, Labels: map[string]string{"team": ns.team}}})
 	}
@@ -581,12 +725,20 @@ func runScenario(c *kit.Ctx, sc sCase) {
 			Template: v1.NodeClaimTemplate{ObjectMeta: v1.ObjectMeta{Labels: labels}, Spec: v1.NodeClaimTemplateSpec{Requirements: reqs}}}})
 		np.Namespace = ""
 		if p.Tainted {
-			np.Spec.Template.Spec.Taints = []corev1.Taint{{Key: taintK, Value: "true", Effect: corev1.TaintEffectNoSchedule}}
+			np.Spec.Template.Spec.Taints = []corev1.Taint{{Key: taintK, Value: "true", Effect: lo.Ternary(p.PreferNoSchedule, corev1.TaintEffectPreferNoSchedule, corev1.TaintEffectNoSchedule)}}
 		}
 		kit.Apply(ctx, cl, np)
 	}
 	cluster := state.NewCluster(clk, cl, cp)
 	for _, n := range sc.Nodes {
+		if n.InFlight {
+			alloc := corev1.ResourceList{corev1.ResourceCPU: resource.MustParse("4"), corev1.ResourceMemory: resource.MustParse("16Gi"), corev1.ResourcePods: resource.MustParse("20")}
+			nc := test.NodeClaim(v1.NodeClaim{ObjectMeta: metav1.ObjectMeta{Name: n.Name, Labels: n.Labels},
+				Status: v1.NodeClaimStatus{ProviderID: "fake://" + n.Name, Capacity: alloc, Allocatable: alloc}})
+			nc.Namespace = ""
+			cluster.UpdateNodeClaim(nc)
+			continue
+		}
 		node := test.Node(test.NodeOptions{ObjectMeta: metav1.ObjectMeta{Name: n.Name, Labels: n.Labels}, ProviderID: "fake://" + n.Name,
 			Allocatable: corev1.ResourceList{corev1.ResourceCPU: resource.MustParse("4"), corev1.ResourceMemory: resource.MustParse("16Gi"), corev1.ResourcePods: resource.MustParse("20")}})
 		node.Namespace = "" // cluster-scoped; the in-memory client keys by namespace
@@ -598,15 +750,30 @@ func runScenario(c *kit.Ctx, sc sCase) {
 			panic(err)
 		}
 	}
-	for _, bp := range sc.Bound {
-		p := bp.k8s()
-		kit.Apply(ctx, cl, p)
-		if err := cluster.UpdatePod(ctx, p); err != nil {
-			panic(err)
-		}
-	}
 	var pods []*corev1.Pod
 	byUID := map[types.UID]sPod{}
+	for _, bp := range sc.Bound {
+		p := bp.k8s()
+		if bp.Terminating {
+			p.Finalizers = []string{"example.com/hold"}
+		}
+		kit.Apply(ctx, cl, p)
+		if bp.Terminating {
+			if err := cl.Delete(ctx, p); err != nil {
+				panic(err)
+			}
+			if err := cl.Get(ctx, client.ObjectKeyFromObject(p), p); err != nil {
+				panic(err)
+			}
+		}
+		if err := cluster.UpdatePod(ctx, p); err != nil && bp.Node != "gone-node" {
+			panic(err)
+		}
+		if bp.Resched {
+			pods = append(pods, p)
+			byUID[p.UID] = bp
+		}
+	}
 	for _, sp := range sc.Batch {
 		p := sp.k8s()
 		kit.Apply(ctx, cl, p)
@@ -614,10 +781,27 @@ func runScenario(c *kit.Ctx, sc sCase) {
 		byUID[p.UID] = sp
 	}
 	prov := provisioning.NewProvisioner(cl, events.NewRecorder(&record.FakeRecorder{}), cp, cluster, clk, deviceallocation.NewController(cl), virtualpods.NewVirtualPodCache(cl))
-	s, err := prov.NewScheduler(ctx, pods, cluster.DeepCopyNodes().Active(), sets.New[types.UID](), provscheduling.NumConcurrentReconciles(sc.Workers))
-	if err != nil {
-		panic(err)
+	stateNodes := lo.Filter(cluster.DeepCopyNodes().Active(), func(n *state.StateNode, _ int) bool {
+		return !lo.SomeBy(sc.Nodes, func(x sNode) bool { return x.Candidate && x.Name == n.Name() })
+	})
+	opts := []provscheduling.Options{provscheduling.NumConcurrentReconciles(sc.Workers)}
+	if sc.IgnorePrefs {
+		opts = append(opts, provscheduling.IgnorePreferences)
 	}
+	faultOn.Store(strings.HasPrefix(sc.Fault, "new:"))
+	s, err := prov.NewScheduler(ctx, pods, stateNodes, sets.New[types.UID](), opts...)
+	if err != nil {
+		if sc.Fault == "" {
+			panic(err)
+		}
+		// the topology could not be computed: nothing may be placed in this pass
+		faultOn.Store(false)
+		sc.SchedulerErr = "NewScheduler failed"
+		c.Count("B:fault:" + sc.Fault + ":scheduler-not-built")
+		emitWorld(c, sc, provscheduling.Results{}, byUID)
+		return
+	}
+	faultOn.Store(sc.Fault != "")
 	if debugDump {
 		for _, g := range s.VerifC02Groups() {
 			fmt.Fprintf(os.Stderr, "GROUP-BEFORE %+v\n", g)
@@ -626,8 +810,12 @@ func runScenario(c *kit.Ctx, sc sCase) {
 	sctx, cancel := context.WithTimeout(ctx, time.Minute)
 	results, err := s.Solve(sctx, pods)
 	cancel()
+	faultOn.Store(false)
 	if err != nil {
 		panic(err)
+	}
+	if sc.Fault != "" {
+		c.Count("B:fault:" + sc.Fault + ":solve-ran")
 	}
 
 	if debugDump {
@@ -661,6 +849,11 @@ func runScenario(c *kit.Ctx, sc sCase) {
 			fmt.Fprintf(os.Stderr, "EXISTING %s pods=%v\n", en.Name(), lo.Map(en.Pods, func(p *corev1.Pod, _ int) string { return p.Name }))
 		}
 	}
+	emitWorld(c, sc, results, byUID)
+}
+
+// emitWorld writes the end state of one pass (bound pods, nodes, new placements) as a CaseS and counts the buckets.
+func emitWorld(c *kit.Ctx, sc sCase, results provscheduling.Results, byUID map[types.UID]sPod) {
 	// ---- final state
 	univ := universe(sc)
 	sc.Placement = map[string]string{}
@@ -668,22 +861,31 @@ func runScenario(c *kit.Ctx, sc sCase) {
 	var gnodes, gpods []string
 	nodeTainted := map[string]bool{}
 	for _, n := range sc.Nodes {
+		if n.Candidate {
+			continue // on its way out: not part of the end state
+		}
 		lab := map[string][]string{}
 		for k, v := range n.Labels {
 			lab[k] = []string{v}
+		}
+		if n.InFlight {
+			lab[hostKey] = []string{n.Name} // not registered yet: its hostname will be a fresh, unique domain
 		}
 		gnodes = append(gnodes, gNode(n.Name, false, lab, n.Tainted))
 		nodeTainted[n.Name] = n.Tainted
 	}
 	for _, bp := range sc.Bound {
-		gpods = append(gpods, gPod(bp, bp.Node, false))
+		if bp.Resched || bp.Phase != "" || bp.Terminating {
+			continue // rescheduled pods appear at their new place; terminal / terminating pods do not count
+		}
+		gpods = append(gpods, gPod(bp, bp.Node, false, nil))
 	}
 	placedOn := map[string][]sPod{} // node -> new pods
 	for _, en := range results.ExistingNodes {
 		for _, p := range en.Pods {
 			sp := byUID[p.UID]
 			sc.Placement[sp.NS+"/"+sp.Name] = en.Name()
-			gpods = append(gpods, gPod(sp, en.Name(), true))
+			gpods = append(gpods, gPod(sp, en.Name(), true, scheduling.NewStrictPodRequirements(p)))
 			placedOn[en.Name()] = append(placedOn[en.Name()], sp)
 		}
 	}
@@ -705,13 +907,13 @@ func runScenario(c *kit.Ctx, sc sCase) {
 		if nc.Requirements.Has(teamKey) && nc.Requirements.Get(teamKey).Operator() == corev1.NodeSelectorOpIn {
 			lab[teamKey] = sorted(nc.Requirements.Get(teamKey).Values())
 		}
-		gnodes = append(gnodes, gNode(name, true, lab, poolByName[nc.NodePoolName].Tainted))
+		gnodes = append(gnodes, gNode(name, true, lab, poolByName[nc.NodePoolName].Tainted && !poolByName[nc.NodePoolName].PreferNoSchedule))
 		sc.NewNodes[name] = lab
 		newDomains[name] = lab
 		for _, p := range nc.Pods {
 			sp := byUID[p.UID]
 			sc.Placement[sp.NS+"/"+sp.Name] = name
-			gpods = append(gpods, gPod(sp, name, true))
+			gpods = append(gpods, gPod(sp, name, true, scheduling.NewStrictPodRequirements(p)))
 			placedOn[name] = append(placedOn[name], sp)
 		}
 	}
@@ -758,6 +960,63 @@ func runScenario(c *kit.Ctx, sc sCase) {
 	for _, bp := range sc.Bound {
 		if len(bp.Anti) > 0 {
 			feat["bound-pod-with-anti-affinity"] = true
+		}
+	}
+	// input dimensions added by the coverage audit
+	if sc.IgnorePrefs {
+		feat["dim:preference-policy-ignore"] = true
+	}
+	if len(sc.CatalogZones) > 0 {
+		feat["dim:catalog-without-z3"] = true
+	}
+	for _, p := range sc.Pools {
+		if len(p.ZoneNotIn) > 0 {
+			feat["dim:pool-zone-NotIn"] = true
+		}
+		if p.PreferNoSchedule {
+			feat["dim:pool-taint-PreferNoSchedule"] = true
+		}
+	}
+	for _, n := range sc.Nodes {
+		if n.InFlight {
+			feat["dim:in-flight-nodeclaim"] = true
+		}
+		if n.NoHost {
+			feat["dim:node-without-hostname-label"] = true
+		}
+		if n.Candidate {
+			feat["dim:candidate-node-excluded"] = true
+		}
+	}
+	for _, bp := range sc.Bound {
+		switch {
+		case bp.Resched:
+			feat["dim:bound-pod-rescheduled(excludedPods)"] = true
+		case bp.Phase != "":
+			feat["dim:bound-pod-terminal"] = true
+		case bp.Terminating:
+			feat["dim:bound-pod-terminating"] = true
+		case bp.Node == "gone-node":
+			feat["dim:bound-pod-on-deleted-node"] = true
+		}
+	}
+	for _, sp := range sc.Batch {
+		if len(sp.ZoneTerms) > 0 {
+			feat["dim:node-affinity-OR-terms"] = true
+			if sp.ZoneTerms[0][0] == "z9" {
+				feat["dim:node-affinity-first-term-relaxed-away"] = true
+			}
+		}
+		if len(sp.PrefZone) > 0 {
+			feat["dim:preferred-node-affinity"] = true
+		}
+		for _, sprd := range sp.Spread {
+			if sprd.Sel.Nil {
+				feat["dim:spread-nil-selector"] = true
+			}
+			if len(sprd.Sel.Exprs) > 0 {
+				feat["dim:spread-selector-expression"] = true
+			}
 		}
 	}
 	for f := range feat {
@@ -829,6 +1088,9 @@ func short(k string) string {
 //     on different new nodes that do not share one determined domain (bootstrap finding).
 func findingShape(sc sCase, newDomains map[string]map[string][]string) string {
 	placedNode := func(p sPod) (string, bool) { n, ok := sc.Placement[p.NS+"/"+p.Name]; return n, ok }
+	if strings.HasPrefix(sc.Fault, "solve:") {
+		return kfUpdateError
+	}
 	for _, sp := range sc.Batch {
 		if _, ok := placedNode(sp); !ok {
 			continue
